@@ -12,7 +12,7 @@ import (
 func init() {
 	register(&propDef{
 		ID:          "C12",
-		Explanation: "Decides, for the per-context registries of package templ and the generator's hoisting: R1 every `already rendered?` query is a check-then-record — on the not-yet-rendered side the paired record call follows with the same key, and the emission of the script/class/once body sits on that side only; R2 the registry methods touch only fields of their receiver (no package-level state), and the registry lives in the context value created per InitializeContext; R3 the two type switches over class containers agree: every container type from which the class-NAME switch extracts a component class has an acting case in the CSS-RULE switch, and every acting case of the rule switch has a case in the name switch (otherwise a class is named without its rule, or ruled under the unknown-type name); R4 on every emission path of an element writer, the calls that emit RenderCSSItems / RenderScriptItems precede the element's `<name` literal (GEM); R5 the CSS middleware records every registered class in the context it passes to the next handler and serves them from the stylesheet endpoint. R6 the map fields of the per-render state are only assigned freshly made maps (never an existing map, which would be shared between requests); R7 the once-handle registry is keyed by the handle's identity (its pointer), not by a field that only the constructor sets. R8 a render has one state object (stored by InitializeContext only, never copied by value), so marks are seen by the whole render. R9 the collector of script definitions and the attribute writer hand the event-handler predicate the attribute name in the same form. R10 every element emitter of the generator that hands an attribute list to the attribute emitter has handed the same list to the script collector first on every path (dominance), and the collector looks into both arms of conditional attributes. NOT decided: counts/positions in concrete rendered documents.",
+		Explanation: "Decides, for the per-context registries of package templ and the generator's hoisting: R1 every `already rendered?` query is a check-then-record — on the not-yet-rendered side the paired record call follows with the same key, and the emission of the script/class/once body sits on that side only; R2 the registry methods touch only fields of their receiver (no package-level state), and the registry lives in the context value created per InitializeContext; R3 the two type switches over class containers agree: every container type from which the class-NAME switch extracts a component class has an acting case in the CSS-RULE switch, and every acting case of the rule switch has a case in the name switch (otherwise a class is named without its rule, or ruled under the unknown-type name); R4 on every emission path of an element writer, the calls that emit RenderCSSItems / RenderScriptItems precede the element's `<name` literal (GEM); R5 the CSS middleware records every registered class in the context it passes to the next handler and serves them from the stylesheet endpoint. R6 the map fields of the per-render state are only assigned freshly made maps (never an existing map, which would be shared between requests); R7 the once-handle registry is keyed by the handle's identity (its pointer), not by a field that only the constructor sets. R8 a render has one state object (stored by InitializeContext only, never copied by value), so marks are seen by the whole render. R9 the collector of script definitions and the attribute writer hand the event-handler predicate the attribute name in the same form. R10 every element emitter of the generator that hands an attribute list to the attribute emitter has handed the same list to the script collector first on every path (dominance), and the collector looks into both arms of conditional attributes. NOT decided: counts/positions in concrete rendered documents. R11 the collector of an element's script attributes hands the Then/Else lists of a conditional attribute to code that looks for conditional attributes itself (nesting).",
 		Assumptions: []string{"map membership is the only state of the registry"},
 		Trusted:     []string{"go/types", "go/parser", "x/tools go/packages, go/cfg"},
 		Run:         runC12,
@@ -26,6 +26,7 @@ func runC12(c *Ctx) {
 	renderStateSingle(c, "C12.R8")
 	scriptAttributeSitesAgree(c, "C12.R9")
 	scriptsCollectedBeforeAttributes(c, "C12.R10")
+	scriptCollectorDescends(c, "C12.R11")
 	p := c.pkg(".")
 	info := p.TypesInfo
 
@@ -284,6 +285,9 @@ func runC12(c *Ctx) {
 					}
 					return true
 				})
+				if emits == 0 {
+					return true // nothing of a script / class body is written or collected here (a once-handle renders a component)
+				}
 				c.check(emits >= 1 && outside == 0, "C12.R1", key+"|emit-guarded", c.pos(is.Pos()), "the body is emitted only when not yet rendered",
 					fmt.Sprintf("%s: the script/class body is written outside the `not yet rendered` branch (%d of %d writes)", funcKey(p, b.Decl), outside, emits))
 			}
@@ -823,4 +827,117 @@ func scriptsCollectedBeforeAttributes(c *Ctx, rule string) {
 	}
 	c.count("attribute_emitter_call_sites", n)
 	c.floor(rule, 4)
+}
+
+// scriptCollectorDescends: C12.R11 — conditional attributes nest (`if a { if b { onclick={ f() } } }`). The function that
+// collects the script expressions of an element's attributes (it tests for parser.ConditionalAttribute and returns
+// strings) must hand the Then / Else lists of a conditional attribute — element by element or as a list — to code that
+// itself looks for conditional attributes: itself, or another function with that type test. A helper that only looks
+// at expression attributes drops every script below the first level: the on* attribute is rendered, its function
+// definition is not.
+func scriptCollectorDescends(c *Ctx, rule string) {
+	gp := c.pkg("generator")
+	info := gp.TypesInfo
+	condT, _ := c.pkg("parser/v2").Types.Scope().Lookup("ConditionalAttribute").(*types.TypeName)
+	if condT == nil {
+		c.viol(rule, "anchor-lost:parser.ConditionalAttribute", "", "parser.ConditionalAttribute not found")
+		return
+	}
+	isCond := func(e ast.Expr) bool {
+		t := info.TypeOf(e)
+		if pt, ok := t.(*types.Pointer); ok {
+			t = pt.Elem()
+		}
+		return t != nil && types.Identical(t, condT.Type())
+	}
+	testsCond := map[types.Object]bool{}
+	declOf := map[types.Object]*ast.FuncDecl{}
+	for _, fd := range allFuncDecls(gp) {
+		if fd.Body == nil {
+			continue
+		}
+		declOf[info.Defs[fd.Name]] = fd
+		ast.Inspect(fd.Body, func(n ast.Node) bool {
+			switch x := n.(type) {
+			case *ast.TypeAssertExpr:
+				if x.Type != nil && isCond(x.Type) {
+					testsCond[info.Defs[fd.Name]] = true
+				}
+			case *ast.CaseClause:
+				for _, te := range x.List {
+					if tv, ok := info.Types[te]; ok && tv.IsType() && isCond(te) {
+						testsCond[info.Defs[fd.Name]] = true
+					}
+				}
+			}
+			return true
+		})
+	}
+	n := 0
+	for _, fd := range allFuncDecls(gp) {
+		ob := info.Defs[fd.Name]
+		if fd.Body == nil || !testsCond[ob] || fd.Type.Results == nil {
+			continue
+		}
+		returnsStrings := false
+		for _, r := range fd.Type.Results.List {
+			if t := info.TypeOf(r.Type); t != nil && t.String() == "[]string" {
+				returnsStrings = true
+			}
+		}
+		if !returnsStrings {
+			continue
+		}
+		// every use of <conditional>.Then / .Else
+		ast.Inspect(fd.Body, func(x ast.Node) bool {
+			se, ok := x.(*ast.SelectorExpr)
+			if !ok || (se.Sel.Name != "Then" && se.Sel.Name != "Else") || !isCond(se.X) {
+				return true
+			}
+			n++
+			key := fmt.Sprintf("%s|%s|nested-conditionals-followed", funcKey(gp, fd), se.Sel.Name)
+			// where does the list go? a range statement whose element is handed to a call, or an argument of a call
+			var callee types.Object
+			ast.Inspect(fd.Body, func(m ast.Node) bool {
+				switch y := m.(type) {
+				case *ast.RangeStmt:
+					if ast.Unparen(y.X) == ast.Expr(se) {
+						if vid, ok := y.Value.(*ast.Ident); ok {
+							ast.Inspect(y.Body, func(k ast.Node) bool {
+								if call, ok := k.(*ast.CallExpr); ok {
+									for _, a := range call.Args {
+										if aid, ok := ast.Unparen(a).(*ast.Ident); ok && info.ObjectOf(aid) == info.ObjectOf(vid) {
+											if fn := calleeOf(info, call); fn != nil {
+												callee = fn
+											}
+										}
+									}
+								}
+								return true
+							})
+						}
+					}
+				case *ast.CallExpr:
+					for _, a := range y.Args {
+						if ast.Unparen(a) == ast.Expr(se) {
+							if fn := calleeOf(info, y); fn != nil {
+								callee = fn
+							}
+						}
+					}
+				}
+				return true
+			})
+			switch {
+			case callee == nil:
+				c.undec(rule, key, c.pos(se.Pos()), fmt.Sprintf("%s: could not see what the %s list of a conditional attribute is handed to", fd.Name.Name, se.Sel.Name))
+			default:
+				c.check(testsCond[callee], rule, key, c.pos(se.Pos()), "handed to "+callee.Name()+", which looks for conditional attributes itself",
+					fmt.Sprintf("%s hands the %s list of a conditional attribute to %s, which does not look for conditional attributes: the scripts of a conditional attribute nested inside another one are not collected — the element's on* attribute is rendered, the function it calls is never defined on the page", fd.Name.Name, se.Sel.Name, callee.Name()))
+			}
+			return true
+		})
+	}
+	c.count("conditional_attribute_lists_in_script_collectors", n)
+	c.floor(rule, 2)
 }
